@@ -264,6 +264,25 @@ def configuration_values(ctx):
             raise AnalysisError(f"{fq}: stored value not evaluable for {raw!r}: {e}")
         R.check("C13-D4 quoted configuration values stay text", got == want and type(got) is type(want), f"{raw} -> {want!r}", mod=fi.module, node=fi.node,
                 function=fq, expected=f"{want!r} (text)", found=f"{got!r} ({type(got).__name__})", key_extra=raw)
+    # the same from the whole line: the pattern that splits NAME=VALUE is part of the parser (a value pattern that stops at a '#',
+    # at a blank or at a second '=' cuts a quoted name short)
+    matches = {g_.args[0] for g_ in raws if isinstance(g_.args[0], App) and g_.args[0].op in ("call:re.match", "call:re.fullmatch", "call:re.search")
+               and len(g_.args[0].args) >= 2}
+    if len(matches) == 1:
+        line_t = next(iter(matches)).args[1]
+        lines = {'"ACME Corp #1"': "ACME Corp #1", '"a # b"': "a # b", '"x=y"': "x=y", '"tab\there"': "tab\there", '"nordicsemi.com"': "nordicsemi.com",
+                 '"  lead"': "  lead", '"semi;colon"': "semi;colon"}
+        for raw, want in lines.items():
+            for eol in ("\n", ""):
+                env_ = {line_t: f"SB_CONFIG_SUIT_MPI_ROOT_VENDOR_NAME={raw}{eol}"}
+                try:
+                    got = teval(val, env_) if teval(next(iter(matches)), env_) is not None else "<line not matched by the pattern: the option is dropped>"
+                except Unknown as e:
+                    R.info(f"C13-D4: stored value not evaluable from the whole line for {raw!r}: {e}")
+                    break
+                if not R.check("C13-D4 quoted configuration values stay text", got == want, f"line NAME={raw} -> {want!r}", mod=fi.module, node=fi.node,
+                               function=fq, expected=f"{want!r} (the text between the quotes)", found=f"{got!r}", key_extra="line" + raw):
+                    break
 
 
 def template_defaults(ctx):
